@@ -3,8 +3,11 @@ package vsim
 import (
 	"bytes"
 	"fmt"
+	"reflect"
 	"strings"
 	"time"
+
+	"github.com/ugorji/go/codec"
 
 	"github.com/gammazero/nexus/v3/router"
 	"github.com/gammazero/nexus/v3/simrt"
@@ -94,6 +97,40 @@ func pathological(g *Rand, sz serialize.Serialization) []byte {
 	}
 }
 
+// canonBytes re-encodes a serialized message with map keys in sorted order:
+// the serializers write Go maps in Go's random iteration order, and the
+// mutations below address bytes by position, so without this the same seed
+// would damage different fields in different processes.
+func canonBytes(sz serialize.Serialization, b []byte) []byte {
+	var h codec.Handle
+	switch sz {
+	case serialize.MSGPACK:
+		mh := &codec.MsgpackHandle{}
+		mh.WriteExt, mh.Canonical = true, true
+		mh.MapType = reflect.TypeFor[map[string]any]()
+		h = mh
+	case serialize.CBOR:
+		ch := &codec.CborHandle{}
+		ch.Canonical = true
+		ch.MapType = reflect.TypeFor[map[string]any]()
+		h = ch
+	default:
+		jh := &codec.JsonHandle{}
+		jh.Canonical = true
+		jh.MapType = reflect.TypeFor[map[string]any]()
+		h = jh
+	}
+	var v any
+	if err := codec.NewDecoderBytes(b, h).Decode(&v); err != nil {
+		return b
+	}
+	var out []byte
+	if err := codec.NewEncoderBytes(&out, h).Encode(v); err != nil {
+		return b
+	}
+	return out
+}
+
 // mutate damages a valid encoding.
 func mutate(g *Rand, b []byte, other []byte) []byte {
 	b = append([]byte(nil), b...)
@@ -177,11 +214,11 @@ func runC04b(c *Ctx) {
 			valid := func() []byte {
 				for try := 0; try < 5; try++ {
 					if b, err := ser.Serialize(HostileMessage(g, known)); err == nil {
-						return b
+						return canonBytes(cn.sz, b)
 					}
 				}
 				b, _ := ser.Serialize(&wamp.Publish{Request: 7, Options: wamp.Dict{}, Topic: "t.a"})
-				return b
+				return canonBytes(cn.sz, b)
 			}
 			switch st.kind {
 			case 0:
@@ -198,6 +235,7 @@ func runC04b(c *Ctx) {
 				st.wait = time.Duration(g.Range(1, 90)) * time.Second
 			case 6:
 				st.data, _ = ser.Serialize(&wamp.Hello{Realm: "r1", Details: wamp.Dict{"roles": AllFeatures()}})
+				st.data = canonBytes(cn.sz, st.data)
 			}
 			cn.steps = append(cn.steps, st)
 			sample = append(sample, fmt.Sprintf("c%d(%s,%d):k%d.%d/%dB", k, map[bool]string{true: "ws", false: "raw"}[cn.ws], cn.szIdx, st.kind, st.sub, len(st.data)))
